@@ -72,8 +72,16 @@ def rule_limits(ctx):
                 function='_maxrow', line=mr.lineno)
     bc = p.func(OPERAND, '_build_cel')
     rr.instances += 1
-    t = ' '.join(norm_src(n) for n in own_nodes(bc) if isinstance(n, ast.Compare))
-    if 'c != _maxcol()' in t and 'r != _maxrow()' in t:
+    cmps = [n for n in own_nodes(bc) if isinstance(n, ast.Compare)
+            and len(n.ops) == 1 and isinstance(n.ops[0], (ast.Eq, ast.NotEq))]
+    t = ' '.join(norm_src(n) for n in cmps)
+    pc, pr_ = (bc.params + ['c', 'r'])[:2]
+
+    def against(prm, limit):
+        return any({norm_src(n.left), norm_src(n.comparators[0])} ==
+                   {prm, '%s()' % limit} for n in cmps)
+
+    if against(pc, '_maxcol') and against(pr_, '_maxrow'):
         rr.ok('_build_cel elides exactly the last column / last row', OPERAND)
     else:
         rr.fail(key_of(bc, 'elision'),
@@ -565,6 +573,16 @@ def rule_extlink(ctx):
                     'list, 1-based', floor=2)
     p = ctx.project
     f = p.func('formulas/excel/__init__.py', 'ExcelModel.add_book')
+    # the table may be built by a private helper of add_book
+    from ..util import with_helpers
+    for g_ in with_helpers(ctx, f):
+        if any(isinstance(n, ast.Assign) and any(
+                isinstance(t, ast.Subscript) and isinstance(
+                    t.slice, ast.Constant) and
+                t.slice.value == 'external_links' for t in n.targets)
+                for n in own_nodes(g_)):
+            f = g_
+            break
     stores = [n for n in own_nodes(f) if isinstance(n, ast.Assign) and any(
         isinstance(t, ast.Subscript) and isinstance(t.slice, ast.Constant)
         and t.slice.value == 'external_links' for t in n.targets)]
